@@ -24,12 +24,31 @@ ASSUMPTIONS = [
 ]
 
 
-def bond_table(n, edges, lengths):
-    tab = {i: [] for i in range(n)}
+def bond_table(n, edges, lengths, order=0):
+    """order: how the dictionary came about - 0: one key per atom in ascending order (what Molecule.bonds_distance
+    gives); 1: filled from the bond list as it comes (keys in order of first appearance in a bond, atoms without bonds
+    last); 2: keys and neighbour lists in a pseudo-random order.  The content is the same mapping in all three."""
+    pairs = {i: [] for i in range(n)}
     for (a, b), L in zip(edges, lengths):
-        tab[a].append((b, float(L)))
-        tab[b].append((a, float(L)))
-    return tab
+        pairs[a].append((b, float(L)))
+        pairs[b].append((a, float(L)))
+    if not order:
+        return pairs
+    if order == 1:
+        keys = []
+        for a, b in list(edges)[::-1]:
+            for x in (b, a):
+                if x not in keys:
+                    keys.append(x)
+        keys += [i for i in range(n) if i not in keys]
+        return {k: list(pairs[k]) for k in keys}
+    rng = np.random.default_rng(order * 7919 + n)
+    return {int(k): [pairs[int(k)][j] for j in rng.permutation(len(pairs[int(k)]))] for k in rng.permutation(n)}
+
+
+def table_order(case):
+    v = int(case.get("seed", case.get("n", 0) * 31 + len(case.get("edges", [])))) % 4
+    return [0, 1, 0, 2 + int(case.get("seed", 0)) % 1000][v]
 
 
 def depth_from(n, edges, root):
@@ -97,7 +116,7 @@ def check_move(case):
     before = pos.copy()
     displ = np.array(case["displ"], float)
     displ_before = displ.copy()
-    tab = bond_table(n, edges, case["lengths"])
+    tab = bond_table(n, edges, case["lengths"], table_order(case))
     if case.get("reuse") == "after-error" and n > 1:
         # error-then-continue: a call that raises part-way (a displacement with two components, a bond table that lacks
         # an atom it reaches), caught by the caller, then the valid call on a molecule of the same size
@@ -199,7 +218,7 @@ def displ_case(draw):
 def check_displ(case):
     n, edges, atom = case["n"], [tuple(e) for e in case["edges"]], case["atom"]
     pos = np.array(case["pos"], float)
-    tab = bond_table(n, edges, case["lengths"])
+    tab = bond_table(n, edges, case["lengths"], table_order(case))
     nbrs = [b for b, _ in tab[atom]]
     if not nbrs:
         return {"nontrivial": False, "classes": ["neighbours:0"]}
